@@ -4,7 +4,7 @@ ENGINES = [
     {
         "name": "kani-cbmc",
         "path": "/verif/kani/core",
-        "serves_properties": ["C01", "C05", "C08", "C13", "C15", "C16", "C17", "C18", "C20"],
+        "serves_properties": ["C01", "C05", "C08", "C13", "C15", "C16", "C17", "C20"],
         "kind_free_text": "Kani 0.68 proof harnesses (kani::any inputs, kani::unwind bounds, unwinding assertions on) over the "
         "real shuttle crates compiled with feature verif-hooks; decided by CBMC 6.11 + CaDiCaL. The same harnesses build "
         "natively against a stand-in for the kani crate (src/shim.rs, src/bin/native.rs) for harness validation and for "
@@ -82,15 +82,6 @@ CLAIMS = {
         "note": "only the no-lost-wake-up protocol at Task level (sleep_unless_woken / wake); result delivery clauses are outside.",
         "technique": _K + "symbolic operation sequences against a wake-flag model",
     },
-    "C18": {
-        "text": "Solver verdict, for the literal control skeletons listed in the evidence and all permit counts / initial permits / both "
-        "fairness modes: try_acquire succeeds exactly when the reference counter says so, release and close change "
-        "available_permits / the closed flag exactly as the counting model does. Waiter queues, fairness order, grants, "
-        "cancellation and wake-ups - the larger part of the property - are not covered.",
-        "note": "real BatchSemaphore on a real ExecutionState with two coroutine-less tasks; any skeleton containing an Acquire "
-        "future exhausts the solver's memory (measured), so only try_acquire / release / close paths are decided.",
-        "technique": _K + "concrete control skeleton, symbolic operands and mode",
-    },
     "C20": {
         "text": "Solver verdict for every u64 probe: every constructor / conversion / clone / set operator of the deterministic HashMap "
         "and HashSet yields a collection whose hasher equals the fixed-key hasher (a constructor that falls back to "
@@ -118,7 +109,9 @@ NOT_APPLICABLE = {
     "C03": "the verdict is computed by ExecutionState::schedule + run_to_completion: " + _ENGINE
     + ". The harness (kani/core/src/c03.rs: one decision from every task table, oracle scheduler, spec predicate) exists, agrees with "
     "the real code on 10^5..10^6 native random runs, and is not registered because no instance was decided (30 min timeout alone).",
-    "C04": "Mutex/RwLock/atomics operate through BatchSemaphore::acquire (Acquire futures) and ExecutionState: " + _ENGINE + ".",
+    "C04": "Mutex/RwLock/atomics operate through BatchSemaphore and ExecutionState: " + _ENGINE + ". Harnesses for the non-blocking "
+    "paths exist (kani/core/src/c04.rs); natively they expose the re-entrant try_read permit leak (repaired, fix: 328323d), but their "
+    "Kani runs end in non-replayable pointer failures inside VecDeque<(usize, VectorClock)> (inconclusive), so nothing is claimed.",
     "C06": "mpsc send/recv block through ExecutionState and wait queues of Arc-shared state: " + _ENGINE + ".",
     "C07": "spawn/join/scope/thread-locals need coroutines, catch_unwind (Kani 0.68 ICE) and the execution loop: " + _ENGINE + ".",
     "C09": "DfsScheduler is a K-pure target and the harness (kani/core/src/c09.rs: every depth-2 choice tree, validated natively on "
@@ -135,6 +128,11 @@ NOT_APPLICABLE = {
     "ordinary two-run program against the real runtime (demos/c12demo, fix: commit), not with a solver, so no check is claimed.",
     "C14": "isolation between executions is ExecutionState::cleanup + continuation pool + per-execution storage: coroutines and "
     + _ENGINE + ".",
+    "C18": "BatchSemaphore runs on ExecutionState: " + _ENGINE + ". Literal-skeleton instances without Acquire futures "
+    "([try,try,release] ...) do finish (70-120 s), but their verdict is not stable: identical sources built under two different "
+    "directory names gave SUCCESSFUL (6563 checks) and FAILED (6568 checks: Kani-internal sanity checks 'Unexpected return from "
+    "Never function' in PermitsAvailable::acquire plus 34 pointer failures that cannot be extracted or replayed). A check whose "
+    "verdict depends on the build path cannot be registered.",
     "C19": "the tokio replacements are layers over BatchSemaphore::acquire futures and ExecutionState: " + _ENGINE
     + "; watch uses catch_unwind (Kani ICE).",
 }
